@@ -69,7 +69,12 @@ def register(reg, S):
         ],
         loops=trivial, locals={"instrument_tracks": S["TrackMap"]}, callee_modes=modes, call_site=False,
         callee_ensures=dict(slim, **{P: ["one-entry", "each-section"]}),
-        props=["C06", "C13"]))
+        # file-level glue (see c_chart.FILE_BODY): which section body, which resolution and which
+        # tempo map each section parser is given is part of every property stated about a chart
+        props=["C06", "C13", "C14", "C10", "C08", "C09", "C01", "C04", "C11", "C12", "C15"],
+        clause_props={"song-feeds-metadata": ["C06", "C13", "C14", "C10"],
+                      "synctrack-feeds-tempo-and-meter": ["C06", "C13", "C14", "C08", "C01", "C04", "C11", "C12", "C15"],
+                      "events-feed-global-events": ["C06", "C13", "C14", "C09", "C01", "C11", "C12"]}))
     reg.add(Contract(
         C + "Chart.from_file", inst="required-sections", **common, requires=pre, raise_allowed=allowed,
         must_raise=[f"not exists(0, g_k, lambda j: g_tag[j] == '{t}')" for t in ("Song", "SyncTrack", "Events")],
@@ -91,7 +96,11 @@ def register(reg, S):
                       "hint('no-earlier-section-names-this-pair', forall(0, _it, lambda j: implies(g_has[j], not (g_pi[j] == g_pi[_it] and g_pd[j] == g_pd[_it]))))")],
         locals={"instrument_tracks": S["TrackMap"]}, callee_modes=modes, call_site=False,
         callee_ensures=dict(slim, **{P: ["one-entry", "each-section"]}),
-        props=["C06", "C13"]))
+        props=["C06", "C13", "C14", "C02", "C03", "C04", "C05", "C07", "C01", "C11", "C12"],
+        clause_props=dict({n: ["C06", "C13"] for n in ("header-names-its-pair", "sections-name-distinct-pairs", "no-other-track",
+                                                        "current-section-pair", "no-earlier-section-names-this-pair", "rebind-")},
+                          **{"selected-sections-parsed-into-their-track": ["C06", "C13", "C14", "C02", "C03", "C04", "C05", "C07", "C01", "C11", "C12"],
+                             "current-section-body": ["C06", "C13", "C14", "C02", "C07"]})))
 
     # ------------------------------------------------------------------ safety instances (C18)
     reg.add(Contract(
